@@ -11,9 +11,14 @@
         flight; the loop exits at once from `.up` / `.backoff` and as soon as the dial / CONNECT in
         flight is resolved otherwise. Only Disconnect BEFORE Connect (`.idle`) still allows the one
         dial the Go loop makes before it first looks at `disconnected`,
-    (5) cancellation of the context given to Connect before the first success ends the loop at once
-        (Connect returns the error, no dial or connection ever again); after the first success it
-        does nothing.
+    (5) cancellation of the context given to Connect before the first success, in any phase (dialling,
+        awaiting CONNACK, waiting to redial, exited): Connect returns the error at once and `dials` never
+        grows again, in EVERY configuration. With a context-aware dialer (`deafDialer = false`) the loop is
+        `.exited` at once and no connection is ever created again. With a dialer that ignores its context
+        (`deafDialer = true`, e.g. `NoContextDialer`) a DialContext in flight is not interrupted: the phase
+        stays `.dialGate` until the dial resolves, then the loop is `.exited` (`.dialFail`: no wait;
+        `.dialOk`: ONE more connection, CONNECT written, closed from the start). After the first success
+        cancellation does nothing.
   Helper lemmas: `MqttVerif/Proofs/RetryLoop.lean`.
 -/
 import MqttVerif.Proofs.RetryLoop
@@ -260,7 +265,9 @@ theorem step_dials_count (w : World) (e : Ev) :
         simp only [step, hp]
         split
         · rename_i h; exact absurd rfl h
-        · split <;> rfl
+        · split
+          · split <;> rfl
+          · rfl
       rw [this]; simp [isStart, isWaitElapsed, hp]
     · have : step w .start = w := by simp [step, hp]
       rw [this]; simp [isStart, isWaitElapsed, hp]
@@ -316,7 +323,9 @@ theorem starts_eq (evs : List Ev) (w : World) (h : w.phase = .idle) :
         simp only [step, h]
         split
         · rename_i h0; exact absurd rfl h0
-        · split <;> simp
+        · split
+          · split <;> simp
+          · simp
       rw [starts_of_not_idle es _ hni, if_neg (foldl_not_idle es _ hni)]
       simp [h]
 
@@ -477,11 +486,27 @@ theorem stopped_dialFail_exits (w : World) (hs : w.stopped = true) (hp : w.phase
     (step w .dialFail).phase = .exited := by
   simp [step, hp, hs]
 
-/-- … a transport is handed over (SetClient, CONNECT written): the loop, still stopped, awaits the CONNACK -/
-theorem stopped_dialOk_connects (w : World) (hs : w.stopped = true) (hp : w.phase = .dialGate) (i : Nat) :
+/-- … a transport is handed over (SetClient, CONNECT written): the loop, still stopped, awaits the
+    CONNACK — provided the context of the first Connect was not cancelled during the dial (otherwise, which
+    needs a dialer that ignores its context, the loop ends at once: `stopped_dialOk`) -/
+theorem stopped_dialOk_connects (w : World) (hs : w.stopped = true) (hp : w.phase = .dialGate) (i : Nat)
+    (hnc : ¬ (w.ctxCancelled = true ∧ w.connectReturned = none)) :
     (step w (.dialOk i)).phase = .connackGate w.conns.length ∧ (step w (.dialOk i)).stopped = true ∧
       (step w (.dialOk i)).dials = w.dials ∧ (step w (.dialOk i)).conns.length = w.conns.length + 1 := by
-  simp [step, hp, hs]
+  rw [step_dialOk_live w i hp hnc]
+  exact ⟨rfl, hs, rfl, by simp⟩
+
+/-- in general (any world, any configuration): the loop awaits the CONNACK or — first Connect cancelled
+    during the dial — has ended; one more connection, no dial -/
+theorem stopped_dialOk (w : World) (hs : w.stopped = true) (hp : w.phase = .dialGate) (i : Nat) :
+    ((step w (.dialOk i)).phase = .connackGate w.conns.length ∨ (step w (.dialOk i)).phase = .exited) ∧
+      (step w (.dialOk i)).stopped = true ∧
+      (step w (.dialOk i)).dials = w.dials ∧ (step w (.dialOk i)).conns.length = w.conns.length + 1 := by
+  by_cases hnc : w.ctxCancelled = true ∧ w.connectReturned = none
+  · obtain ⟨a, b, _, c, _, _, d, _⟩ := dialOk_cancelled_spec w i hp hnc.1 hnc.2
+    exact ⟨Or.inr a, c.trans hs, b, d⟩
+  · obtain ⟨a, b, c, d⟩ := stopped_dialOk_connects w hs hp i hnc
+    exact ⟨Or.inl a, b, c, d⟩
 
 /-- a stopped loop awaiting the CONNACK: any resolution of the CONNECT attempt ends it -/
 theorem stopped_connack_exits (w : World) (k : Nat) (hs : w.stopped = true) (hp : w.phase = .connackGate k) :
@@ -499,11 +524,13 @@ theorem stopped_dialGate_resolves (w : World) (hs : w.stopped = true) (hp : w.ph
       (step (step w (.dialOk i)) .connackRefused).phase = .exited ∧
       (w.cfg.connectTimeout = true → (step (step w (.dialOk i)) .connackNever).phase = .exited) := by
   refine ⟨stopped_dialFail_exits w hs hp, fun i => ?_⟩
-  obtain ⟨h1, h2, _, _⟩ := stopped_dialOk_connects w hs hp i
-  obtain ⟨a, b, c⟩ := stopped_connack_exits _ _ h2 h1
-  refine ⟨a, b, fun ht => c ?_⟩
-  have : (step w (.dialOk i)).cfg = w.cfg := by simp [step, hp]
-  rw [this]; exact ht
+  obtain ⟨h1 | h1, h2, _, _⟩ := stopped_dialOk w hs hp i
+  · obtain ⟨a, b, c⟩ := stopped_connack_exits _ _ h2 h1
+    refine ⟨a, b, fun ht => c ?_⟩
+    rw [step_cfg]; exact ht
+  · -- the first Connect was cancelled during the dial: the loop has already ended, and stays so
+    exact ⟨fun sp inb => (exited_shape h1 (step_shape _ _)).1, (exited_shape h1 (step_shape _ _)).1,
+      fun _ => (exited_shape h1 (step_shape _ _)).1⟩
 
 /-- Disconnect while a DialContext or a CONNECT is in flight: the loop stays where it is, stopped, and
     the statements above apply to `step w .disconnect` -/
@@ -589,14 +616,17 @@ theorem cancel_twice (w : World) (h : w.ctxCancelled = true) : step w .cancelCtx
 /-- An EFFECTIVE cancellation (Connect has not returned, the context was live) while the loop is running
     and not connected — waiting to redial, dialling, awaiting the CONNACK — or has already ended on
     Disconnect: the loop is `.exited` immediately, Connect returns the context's error, nothing is
-    dialled or created; the connection whose CONNACK was awaited is closed. Any world. -/
+    dialled or created; the connection whose CONNACK was awaited is closed. Any world, any configuration;
+    the only exception (`hnd`) is a cancellation that arrives inside the DialContext of a dialer that ignores
+    its context, for which see `cancel_deaf_dial`. -/
 theorem cancel_exits (w : World) (hcr : w.connectReturned = none) (hcc : w.ctxCancelled = false)
-    (hp : w.phase = .backoff ∨ w.phase = .dialGate ∨ (∃ k, w.phase = .connackGate k) ∨ w.phase = .exited) :
+    (hp : w.phase = .backoff ∨ w.phase = .dialGate ∨ (∃ k, w.phase = .connackGate k) ∨ w.phase = .exited)
+    (hnd : w.phase = .dialGate → w.cfg.deafDialer = false) :
     let w' := step w .cancelCtx
     w'.phase = .exited ∧ w'.connectErr = true ∧ w'.ctxCancelled = true ∧ w'.connectReturned = none ∧
     w'.dials = w.dials ∧ w'.conns.length = w.conns.length ∧ w'.waits = w.waits ∧ w'.stopped = w.stopped ∧
     (∀ k, w.phase = .connackGate k → k < w.conns.length → (getConn w' k).alive = false) := by
-  obtain ⟨c1, c2, _, c4, _, c6, c7, c8⟩ := cancel_spec w hcc hcr
+  obtain ⟨c1, c2, _, c4, _, c6, c7, c8⟩ := cancel_spec w hcc hcr hnd
   obtain ⟨x1, x2, x3⟩ := ctxSt_eq' c8
   have hph : cancelPhase w.phase = .exited ∧ cancelErr w.phase w.connectErr = true := by
     rcases hp with h | h | ⟨k, h⟩ | h <;> rw [h] <;> exact ⟨rfl, rfl⟩
@@ -605,14 +635,94 @@ theorem cancel_exits (w : World) (hcr : w.connectReturned = none) (hcc : w.ctxCa
   rw [step_cancel_gate w k hcc hcr hk]
   exact cancelGate_dead w k hlt
 
-/-- Connect returns once, and an error only from a loop that has ended without ever connecting: in
-    every reachable world `connectErr` implies `.exited`, a cancelled context and no success; a loop that
-    watches a connection has returned success — so an effective cancellation never meets `.up` -/
+/-- An effective cancellation inside the DialContext of a dialer that ignores its context: Connect
+    returns the context's error at once, nothing else changes — the dial goes on, the loop acts on its
+    result (`cancelled_dialGate_resolves`). -/
+theorem cancel_deaf_dial (w : World) (hcr : w.connectReturned = none) (hcc : w.ctxCancelled = false)
+    (hp : w.phase = .dialGate) (hdf : w.cfg.deafDialer = true) :
+    step w .cancelCtx = { w with ctxCancelled := true, connectErr := true } :=
+  step_cancel_deaf w hcc hcr hp hdf
+
+/-- The general statement (any world, ANY configuration): an effective cancellation outside `.idle` / `.up`
+    makes Connect return the error immediately, dials nothing, creates nothing; the loop is `.exited`, or —
+    only if it was inside the DialContext of a dialer that ignores its context — still `.dialGate`. -/
+theorem cancel_effective (w : World) (hcr : w.connectReturned = none) (hcc : w.ctxCancelled = false)
+    (hp : w.phase = .backoff ∨ w.phase = .dialGate ∨ (∃ k, w.phase = .connackGate k) ∨ w.phase = .exited) :
+    let w' := step w .cancelCtx
+    w'.connectErr = true ∧ w'.ctxCancelled = true ∧ w'.connectReturned = none ∧
+    w'.dials = w.dials ∧ w'.conns.length = w.conns.length ∧ w'.waits = w.waits ∧ w'.stopped = w.stopped ∧
+    (w'.phase = .exited ∨ (w'.phase = .dialGate ∧ w.phase = .dialGate ∧ w.cfg.deafDialer = true)) ∧
+    ((w.phase = .dialGate → w.cfg.deafDialer = false) → w'.phase = .exited) := by
+  by_cases hdd : w.phase = .dialGate ∧ w.cfg.deafDialer = true
+  · have hst := cancel_deaf_dial w hcr hcc hdd.1 hdd.2
+    dsimp only
+    rw [hst]
+    refine ⟨rfl, rfl, hcr, rfl, rfl, rfl, rfl, Or.inr ⟨hdd.1, hdd.1, hdd.2⟩, fun hnd => ?_⟩
+    have := hnd hdd.1
+    rw [hdd.2] at this; cases this
+  · have hnd : w.phase = .dialGate → w.cfg.deafDialer = false := by
+      intro h
+      cases hq : w.cfg.deafDialer
+      · rfl
+      · exact absurd ⟨h, hq⟩ hdd
+    obtain ⟨a1, a2, a3, a4, a5, a6, a7, a8, _⟩ := cancel_exits w hcr hcc hp hnd
+    exact ⟨a2, a3, a4, a5, a6, a7, a8, Or.inl a1, fun _ => a1⟩
+
+/-- The resolution of a dial that outlived the cancellation of the first Connect (any world with a
+    cancelled first Connect in `.dialGate`; reachable only with a dialer that ignores its context): the loop
+    is `.exited` as soon as `.dialFail` or `.dialOk` arrives, whether or not Disconnect was called.
+    `.dialFail`: nothing else changes — no wait is logged, no back-off. `.dialOk`: exactly ONE connection is
+    appended, CONNECT written and closed from the start (with nothing queued it carries only CONNECT); no
+    dial, no wait; Connect's outcome stays the error. -/
+theorem cancelled_dialGate_resolves (w : World) (hcc : w.ctxCancelled = true) (hcr : w.connectReturned = none)
+    (hp : w.phase = .dialGate) :
+    step w .dialFail = { w with phase := .exited } ∧
+    ∀ i, (step w (.dialOk i)).phase = .exited ∧ (step w (.dialOk i)).dials = w.dials ∧
+      (step w (.dialOk i)).waits = w.waits ∧
+      (step w (.dialOk i)).conns.length = w.conns.length + 1 ∧
+      (getConn (step w (.dialOk i)) w.conns.length).alive = false ∧
+      (w.taskQ = [] → (step w (.dialOk i)).conns =
+        w.conns ++ [{ ctr := i, handler := w.handler, pkts := [(.connect, .sent .ok)], alive := false }]) ∧
+      (step w (.dialOk i)).connectErr = w.connectErr ∧ (step w (.dialOk i)).connectReturned = none := by
+  refine ⟨step_dialFail_cancelled w hp hcc hcr, fun i => ?_⟩
+  obtain ⟨a, b, c, _, d, _, e, f, g⟩ := dialOk_cancelled_spec w i hp hcc hcr
+  obtain ⟨d1, _, d3⟩ := ctxSt_eq d
+  exact ⟨a, b, c, e, f, g, d3, d1.trans hcr⟩
+
+/-- Connect returns once, and an error only for a cancelled context from a loop that never connected: in
+    every reachable world `connectErr` implies a cancelled context, no success, and a loop that is `.exited`
+    or — only with a dialer that ignores its context — still inside the DialContext that was in flight; a
+    loop that watches a connection has returned success (so an effective cancellation never meets `.up`);
+    and once Connect was called, a cancelled context without a success means the error HAS been returned. -/
 theorem connect_returns_once (s : Script) : let w := exec s
-    (w.connectErr = true → w.phase = .exited ∧ w.connectReturned = none ∧ w.ctxCancelled = true) ∧
+    (w.connectErr = true → (w.phase = .exited ∨ (w.phase = .dialGate ∧ w.cfg.deafDialer = true)) ∧
+      w.connectReturned = none ∧ w.ctxCancelled = true) ∧
     (∀ k, w.phase = .up k → w.connectReturned.isSome = true) ∧
-    (w.phase = .idle → w.connectReturned = none ∧ w.connectErr = false) :=
-  ⟨(XInv.exec s).2.1, (XInv.exec s).2.2, (XInv.exec s).1⟩
+    (w.phase = .idle → w.connectReturned = none ∧ w.connectErr = false) ∧
+    (w.ctxCancelled = true → w.connectReturned = none → w.phase ≠ .idle → w.connectErr = true) :=
+  ⟨(XInv.exec s).2.1, (XInv.exec s).2.2.1, (XInv.exec s).1, (XInv.exec s).2.2.2⟩
+
+/-- the statement as it was before the dialer that ignores its context: with a context-aware dialer an
+    error is only ever returned by a loop that has ended -/
+theorem connect_error_means_exited (s : Script) (hdf : s.cfg.deafDialer = false) : let w := exec s
+    w.connectErr = true → w.phase = .exited ∧ w.connectReturned = none ∧ w.ctxCancelled = true := by
+  intro w he
+  obtain ⟨a | ⟨_, a⟩, b, c⟩ := (connect_returns_once s).1 he
+  · exact ⟨a, b, c⟩
+  · rw [show (exec s).cfg = s.cfg from exec_cfg s, hdf] at a; cases a
+
+/-- where a loop whose first Connect was cancelled before any success can be -/
+theorem cancelled_means_ended (s : Script) : let w := exec s
+    w.ctxCancelled = true → w.connectReturned = none →
+      w.phase = .idle ∨ w.phase = .exited ∨ (w.phase = .dialGate ∧ w.cfg.deafDialer = true) :=
+  fun hcc hcr => (XInv.exec s).cancelled_phase hcc hcr
+
+/-- with a context-aware dialer the branches of `step` added for the deaf dialer (`.dialOk` / `.dialFail`
+    in `.dialGate` with a cancelled first Connect) are unreachable: the step function is the old one on
+    every reachable world -/
+theorem deaf_branches_unreachable (s : Script) (hdf : s.cfg.deafDialer = false) : let w := exec s
+    ¬ (w.phase = .dialGate ∧ w.ctxCancelled = true ∧ w.connectReturned = none) :=
+  (XInv.exec s).not_deaf ((exec_cfg s).symm ▸ hdf)
 
 /-- in particular cancellation while connected does nothing (reachable worlds) -/
 theorem cancel_while_connected (s : Script) (k : Nat) (h : (exec s).phase = .up k) :
@@ -630,12 +740,70 @@ theorem exec_append (s : Script) (l : List Ev) : exec { s with evs := s.evs ++ l
   show (s.evs ++ l).foldl step (init s) = _
   rw [List.foldl_append]; rfl
 
-/-- (5) along any run: an effective cancellation before the first success, in ANY phase after Connect
-    was called (waiting to redial, dialling, awaiting CONNACK, exited; `.up` cannot occur), ends the loop
-    at once with the context's error, and for ANY later events the loop stays `.exited`, `dials` and the
-    number of connections never grow again, Connect's result stays the error and never becomes a success. -/
+/-- the phases an effective cancellation can meet along a run, once Connect was called -/
+theorem cancel_phases (s : Script) : let w := exec s
+    w.connectReturned = none → w.phase ≠ .idle →
+      w.phase = .backoff ∨ w.phase = .dialGate ∨ (∃ k, w.phase = .connackGate k) ∨ w.phase = .exited := by
+  intro w hcr hp
+  cases hq : w.phase with
+  | idle => exact absurd hq hp
+  | backoff => exact Or.inl rfl
+  | dialGate => exact Or.inr (Or.inl rfl)
+  | connackGate k => exact Or.inr (Or.inr (Or.inl ⟨k, rfl⟩))
+  | exited => exact Or.inr (Or.inr (Or.inr rfl))
+  | up k =>
+    have := (connect_returns_once s).2.1 k hq
+    rw [show (exec s).connectReturned = none from hcr] at this; cases this
+
+/-- (5), ALL configurations. Along any run: an effective cancellation before the first success, in ANY
+    phase after Connect was called (waiting to redial, dialling, awaiting CONNACK, exited; `.up` cannot
+    occur): Connect returns the context's error immediately; nothing is dialled or created by the
+    cancellation itself; the loop is `.exited` at once, or — only inside the DialContext of a dialer that
+    ignores its context — still `.dialGate`. Then for ANY later events `w'`:
+      * `dials` NEVER grows again;
+      * the loop is `.exited`, or still inside that same DialContext — and then nothing was created;
+      * at most ONE more connection is ever created (none if the loop was `.exited` at once), every
+        connection created is closed from the start;
+      * Connect's result stays the error and never becomes a success. -/
+theorem cancel_never_dials (s : Script) (evs' : List Ev) : let w := exec s
+    w.connectReturned = none → w.ctxCancelled = false → w.phase ≠ .idle →
+      let w1 := step w .cancelCtx
+      let w' := evs'.foldl step w1
+      w1.connectErr = true ∧ w1.dials = w.dials ∧ w1.conns.length = w.conns.length ∧
+      (w1.phase = .exited ∨ (w1.phase = .dialGate ∧ w.phase = .dialGate ∧ w.cfg.deafDialer = true)) ∧
+      w'.dials = w.dials ∧
+      (w'.phase = .exited ∨ (w'.phase = .dialGate ∧ w1.phase = .dialGate)) ∧
+      (w'.phase = .dialGate → w'.conns.length = w.conns.length) ∧
+      w.conns.length ≤ w'.conns.length ∧ w'.conns.length ≤ w.conns.length + 1 ∧
+      (w1.phase = .exited → w'.conns.length = w.conns.length) ∧
+      (∀ j, w.conns.length ≤ j → j < w'.conns.length → (getConn w' j).alive = false) ∧
+      w'.connectErr = true ∧ w'.connectReturned = none ∧ w'.ctxCancelled = true := by
+  intro w hcr hcc hp
+  have hph := cancel_phases s hcr hp
+  obtain ⟨a1, a2, a3, a4, a5, _, _, a8, _⟩ := cancel_effective w hcr hcc hph
+  have hp1 : (step w .cancelCtx).phase = .exited ∨ (step w .cancelCtx).phase = .dialGate := by
+    rcases a8 with h | ⟨h, _⟩
+    · exact Or.inl h
+    · exact Or.inr h
+  obtain ⟨b1, b2, b3, b4, b5, b6, b7⟩ := cancelled_foldl evs' (step w .cancelCtx) a2 a3 hp1
+  have b8 := (ctxMono_foldl evs' (step w .cancelCtx)).1 a1
+  have hb : connBudget (step w .cancelCtx).phase ≤ 1 := by
+    rcases hp1 with h | h <;> rw [h] <;> simp [connBudget]
+  dsimp only
+  refine ⟨a1, a4, a5, a8, b3.trans a4, b4, fun hg => ?_, by omega, by omega, fun he => ?_,
+    fun j h1 h2 => b7 j (by omega) h2, b8, b2, b1⟩
+  · rw [hg] at b6; simp only [connBudget] at b6 hb; omega
+  · rw [he] at b6; simp only [connBudget] at b6 hb; omega
+
+/-- (5) as it was stated before the dialer that ignores its context; it holds in EVERY configuration for a
+    cancellation that arrives while waiting to redial, awaiting the CONNACK or after the loop has ended, and
+    for one that arrives inside DialContext with a context-aware dialer (`hnd`): the loop ends at once with
+    the context's error, and for ANY later events it stays `.exited`, `dials` and the number of connections
+    never grow again, Connect's result stays the error and never becomes a success.
+    (FALSE without `hnd`: `demoDeafCancelDialOk`, `old_cancel_then_nothing_false` below.) -/
 theorem cancel_then_nothing (s : Script) (evs' : List Ev) : let w := exec s
     w.connectReturned = none → w.ctxCancelled = false → w.phase ≠ .idle →
+    (w.phase = .dialGate → w.cfg.deafDialer = false) →
       (step w .cancelCtx).phase = .exited ∧ (step w .cancelCtx).connectErr = true ∧
       (step w .cancelCtx).dials = w.dials ∧ (step w .cancelCtx).conns.length = w.conns.length ∧
       (evs'.foldl step (step w .cancelCtx)).phase = .exited ∧
@@ -643,18 +811,9 @@ theorem cancel_then_nothing (s : Script) (evs' : List Ev) : let w := exec s
       (evs'.foldl step (step w .cancelCtx)).conns.length = w.conns.length ∧
       (evs'.foldl step (step w .cancelCtx)).connectErr = true ∧
       (evs'.foldl step (step w .cancelCtx)).connectReturned = none := by
-  intro w hcr hcc hp
-  have hph : w.phase = .backoff ∨ w.phase = .dialGate ∨ (∃ k, w.phase = .connackGate k) ∨ w.phase = .exited := by
-    cases hq : w.phase with
-    | idle => exact absurd hq hp
-    | backoff => exact Or.inl rfl
-    | dialGate => exact Or.inr (Or.inl rfl)
-    | connackGate k => exact Or.inr (Or.inr (Or.inl ⟨k, rfl⟩))
-    | exited => exact Or.inr (Or.inr (Or.inr rfl))
-    | up k =>
-      have := (connect_returns_once s).2.1 k hq
-      rw [show (exec s).connectReturned = none from hcr] at this; cases this
-  obtain ⟨a1, a2, _, _, a5, a6, _, _, _⟩ := cancel_exits w hcr hcc hph
+  intro w hcr hcc hp hnd
+  have hph := cancel_phases s hcr hp
+  obtain ⟨a1, a2, _, _, a5, a6, _, _, _⟩ := cancel_exits w hcr hcc hph hnd
   obtain ⟨b1, b2, b3⟩ := exited_foldl evs' _ a1
   have b4 := (ctxMono_foldl evs' (step w .cancelCtx)).1 a2
   refine ⟨a1, a2, a5, a6, b1, b2.trans a5, b3.trans a6, b4, ?_⟩
@@ -662,17 +821,86 @@ theorem cancel_then_nothing (s : Script) (evs' : List Ev) : let w := exec s
   rw [exec_append] at hx
   exact (hx b4).2.1
 
+/-- … in particular, word for word the old statement, for every script run with a context-aware dialer -/
+theorem cancel_then_nothing_aware (s : Script) (hdf : s.cfg.deafDialer = false) (evs' : List Ev) : let w := exec s
+    w.connectReturned = none → w.ctxCancelled = false → w.phase ≠ .idle →
+      (step w .cancelCtx).phase = .exited ∧ (step w .cancelCtx).connectErr = true ∧
+      (step w .cancelCtx).dials = w.dials ∧ (step w .cancelCtx).conns.length = w.conns.length ∧
+      (evs'.foldl step (step w .cancelCtx)).phase = .exited ∧
+      (evs'.foldl step (step w .cancelCtx)).dials = w.dials ∧
+      (evs'.foldl step (step w .cancelCtx)).conns.length = w.conns.length ∧
+      (evs'.foldl step (step w .cancelCtx)).connectErr = true ∧
+      (evs'.foldl step (step w .cancelCtx)).connectReturned = none :=
+  fun hcr hcc hp => cancel_then_nothing s evs' hcr hcc hp (fun _ => (exec_cfg s).symm ▸ hdf)
+
+/-- … and with a dialer that ignores its context, cancelled inside DialContext: Connect returns the error
+    at once, the loop stays in `.dialGate` exactly until the dial resolves — the FIRST `.dialFail` /
+    `.dialOk` ends it (see `cancelled_dialGate_resolves` for what that step does) -/
+theorem cancel_deaf_then_resolves (w : World) (hcr : w.connectReturned = none) (hcc : w.ctxCancelled = false)
+    (hp : w.phase = .dialGate) (hdf : w.cfg.deafDialer = true) : let w1 := step w .cancelCtx
+    w1.phase = .dialGate ∧ w1.connectErr = true ∧ w1.dials = w.dials ∧ w1.conns = w.conns ∧
+    (step w1 .dialFail).phase = .exited ∧ (step w1 .dialFail).conns = w.conns ∧
+    (step w1 .dialFail).waits = w.waits ∧ (step w1 .dialFail).dials = w.dials ∧
+    ∀ i, (step w1 (.dialOk i)).phase = .exited ∧ (step w1 (.dialOk i)).dials = w.dials ∧
+      (step w1 (.dialOk i)).conns.length = w.conns.length + 1 ∧
+      (getConn (step w1 (.dialOk i)) w.conns.length).alive = false ∧
+      (step w1 (.dialOk i)).connectErr = true := by
+  have hst := cancel_deaf_dial w hcr hcc hp hdf
+  obtain ⟨r1, r2⟩ := cancelled_dialGate_resolves (step w .cancelCtx) (by rw [hst]) (by rw [hst]; exact hcr)
+    (by rw [hst]; exact hp)
+  dsimp only
+  refine ⟨by rw [hst]; exact hp, by rw [hst], by rw [hst], by rw [hst], by rw [r1], by rw [r1, hst],
+    by rw [r1, hst], by rw [r1, hst], fun i => ?_⟩
+  obtain ⟨q1, q2, _, q4, q5, _, q7, _⟩ := r2 i
+  have e1 : (step w .cancelCtx).dials = w.dials := by rw [hst]
+  have e2 : (step w .cancelCtx).conns = w.conns := by rw [hst]
+  have e3 : (step w .cancelCtx).connectErr = true := by rw [hst]
+  rw [e2] at q4 q5
+  exact ⟨q1, q2.trans e1, q4, q5, q7.trans e3⟩
+
 /-- cancellation before Connect is even called: nothing happens until `.start`, which then makes the one
-    dial attempt of the Go loop (the context-aware dialer fails at once) and returns the error -/
+    dial attempt of the Go loop and returns the error; a context-aware dialer fails at once (the loop is
+    `.exited`), a dialer that ignores its context goes on dialling (`.dialGate`, see
+    `cancel_before_connect_then`) -/
 theorem cancel_before_connect (w : World) (hcr : w.connectReturned = none) (hcc : w.ctxCancelled = false)
     (hp : w.phase = .idle) : let w1 := step w .cancelCtx
     w1.phase = .idle ∧ w1.dials = w.dials ∧ w1.ctxCancelled = true ∧ w1.connectErr = w.connectErr ∧
-    (step w1 .start).phase = .exited ∧ (step w1 .start).dials = w.dials + 1 ∧
-    (step w1 .start).connectErr = true ∧ (step w1 .start).conns = w.conns := by
+    (step w1 .start).phase = (if w.cfg.deafDialer = true then .dialGate else .exited) ∧
+    (step w1 .start).dials = w.dials + 1 ∧
+    (step w1 .start).connectErr = true ∧ (step w1 .start).conns = w.conns ∧
+    (step w1 .start).ctxCancelled = true ∧ (step w1 .start).connectReturned = none := by
   have h : ¬ (w.ctxCancelled = true ∨ w.connectReturned.isSome = true) := by rw [hcc, hcr]; simp
   have hst : step w .cancelCtx = { w with ctxCancelled := true } := by simp only [step, if_neg h, hp]
   simp only [hst]
-  simp [step, hp]
+  cases hdf : w.cfg.deafDialer <;> simp [step, hp, hdf, hcr]
+
+/-- … and whatever happens after that `.start`: never another dial, at most one connection (none with a
+    context-aware dialer), closed from the start; the loop is `.exited` or inside that one DialContext -/
+theorem cancel_before_connect_then (w : World) (hcr : w.connectReturned = none) (hcc : w.ctxCancelled = false)
+    (hp : w.phase = .idle) (evs' : List Ev) : let w' := evs'.foldl step (step (step w .cancelCtx) .start)
+    w'.dials = w.dials + 1 ∧ (w'.phase = .exited ∨ w'.phase = .dialGate) ∧
+    w.conns.length ≤ w'.conns.length ∧ w'.conns.length ≤ w.conns.length + 1 ∧
+    (w.cfg.deafDialer = false → w'.phase = .exited ∧ w'.conns.length = w.conns.length) ∧
+    (∀ j, w.conns.length ≤ j → j < w'.conns.length → (getConn w' j).alive = false) ∧
+    w'.connectErr = true ∧ w'.connectReturned = none := by
+  obtain ⟨_, _, _, _, a5, a6, a7, a8, a9, a10⟩ := cancel_before_connect w hcr hcc hp
+  have hp2 : (step (step w .cancelCtx) .start).phase = .exited ∨ (step (step w .cancelCtx) .start).phase = .dialGate := by
+    rw [a5]; split
+    · exact Or.inr rfl
+    · exact Or.inl rfl
+  obtain ⟨b1, b2, b3, b4, b5, b6, b7⟩ := cancelled_foldl evs' _ a9 a10 hp2
+  have b8 := (ctxMono_foldl evs' (step (step w .cancelCtx) .start)).1 a7
+  have hb : connBudget (step (step w .cancelCtx) .start).phase ≤ 1 := by
+    rcases hp2 with h | h <;> rw [h] <;> simp [connBudget]
+  rw [a8] at b5 b6 b7
+  dsimp only
+  refine ⟨b3.trans a6, ?_, b5, by omega, fun hdf => ?_, b7, b8, b2⟩
+  · rcases b4 with h | ⟨h, _⟩
+    · exact Or.inl h
+    · exact Or.inr h
+  · have he : (step (step w .cancelCtx) .start).phase = .exited := by rw [a5, hdf]; rfl
+    obtain ⟨c1, _, c3⟩ := exited_foldl evs' _ he
+    exact ⟨c1, by rw [c3, a8]⟩
 
 /-! ### non-vacuity -/
 
@@ -853,6 +1081,113 @@ def demoDiscThenCancel : Script := { evs := [.start, .dialFail, .disconnect, .ca
 
 example : (exec demoDiscThenCancel).phase = .exited ∧ (exec demoDiscThenCancel).connectErr = true ∧
     (exec demoDiscThenCancel).stopped = true ∧ (exec demoDiscThenCancel).dials = 1 := by decide
+
+/-! ### cancellation of Connect's context with a dialer that ignores its context (`deafDialer := true`) -/
+
+/-- cancelled inside the first DialContext, which then SUCCEEDS: Connect has returned the error at once, the
+    loop stays in `.dialGate`; the transport is taken, CONNECT written, the client closed, the loop ends.
+    One connection that carries only CONNECT and is dead; timer firings and dial results afterwards do nothing -/
+def demoDeafCancelDialOk : Script :=
+  { cfg := { deafDialer := true },
+    evs := [.start, .cancelCtx, .dialOk 0, .waitElapsed, .dialOk 1, .dialFail, .connackOk false [], .cancelCtx] }
+
+example : let w := exec { demoDeafCancelDialOk with evs := demoDeafCancelDialOk.evs.take 2 }
+    w.phase = .dialGate ∧ w.connectErr = true ∧ w.ctxCancelled = true ∧ w.connectReturned = none ∧
+    w.dials = 1 ∧ w.conns.length = 0 := by decide
+example : let w := exec { demoDeafCancelDialOk with evs := demoDeafCancelDialOk.evs.take 3 }
+    w.phase = .exited ∧ w.connectErr = true ∧ w.dials = 1 ∧ w.waits = [] ∧
+    w.conns.map (·.alive) = [false] ∧ w.conns.map (·.pkts) = [[(.connect, .sent .ok)]] ∧
+    w.conns.map (·.connected) = [false] ∧ w.connectReturned = none ∧ w.stopped = false := by decide
+example : (exec demoDeafCancelDialOk).phase = .exited ∧ (exec demoDeafCancelDialOk).connectErr = true ∧
+    (exec demoDeafCancelDialOk).dials = 1 ∧ (exec demoDeafCancelDialOk).waits = [] ∧
+    (exec demoDeafCancelDialOk).conns.map (·.alive) = [false] ∧
+    (exec demoDeafCancelDialOk).conns.map (·.pkts) = [[(.connect, .sent .ok)]] ∧
+    (exec demoDeafCancelDialOk).connectReturned = none := by decide
+
+/-- … which then FAILS: the loop ends on the spot, no wait is logged, no redial -/
+def demoDeafCancelDialFail : Script :=
+  { cfg := { deafDialer := true }, evs := [.start, .cancelCtx, .dialFail, .waitElapsed, .dialOk 0, .dialFail] }
+
+example : let w := exec { demoDeafCancelDialFail with evs := demoDeafCancelDialFail.evs.take 2 }
+    w.phase = .dialGate ∧ w.connectErr = true ∧ w.dials = 1 := by decide
+example : (exec demoDeafCancelDialFail).phase = .exited ∧ (exec demoDeafCancelDialFail).connectErr = true ∧
+    (exec demoDeafCancelDialFail).dials = 1 ∧ (exec demoDeafCancelDialFail).conns.length = 0 ∧
+    (exec demoDeafCancelDialFail).waits = [] ∧ (exec demoDeafCancelDialFail).connectReturned = none := by decide
+
+/-- cancelled inside a LATER DialContext (after a failed attempt and its wait), requests queued meanwhile:
+    the dead connection also carries the failed write of the queued request, nothing else -/
+def demoDeafCancelRedial : Script :=
+  { cfg := { deafDialer := true },
+    evs := [.start, .dialFail, .waitElapsed, .app (.pub 1 1), .cancelCtx, .dialOk 3, .waitElapsed, .dialOk 4] }
+
+example : (exec demoDeafCancelRedial).phase = .exited ∧ (exec demoDeafCancelRedial).connectErr = true ∧
+    (exec demoDeafCancelRedial).dials = 2 ∧ (exec demoDeafCancelRedial).waits = [0] ∧
+    (exec demoDeafCancelRedial).conns.map (·.alive) = [false] ∧
+    (exec demoDeafCancelRedial).conns.map (·.pkts.map (·.2)) = [[.sent .ok, .dead]] := by decide
+
+/-- cancelled while waiting to redial / awaiting the CONNACK: a deaf dialer makes no difference, the loop exits at once -/
+example : (exec { demoCancelBackoff with cfg := { deafDialer := true } }).phase = .exited ∧
+    (exec { demoCancelBackoff with cfg := { deafDialer := true } }).dials = 1 ∧
+    (exec { demoCancelBackoff with cfg := { deafDialer := true } }).conns.length = 0 := by decide
+example : (exec { demoCancelGate with cfg := { deafDialer := true } }).phase = .exited ∧
+    (exec { demoCancelGate with cfg := { deafDialer := true } }).dials = 1 ∧
+    (exec { demoCancelGate with cfg := { deafDialer := true } }).conns.map (·.alive) = [false] := by decide
+
+/-- cancelled before Connect is called, deaf dialer: `.start` returns the error and dials on; the result ends the loop -/
+def demoDeafCancelIdle : Script :=
+  { cfg := { deafDialer := true }, evs := [.cancelCtx, .start, .dialOk 0, .waitElapsed, .dialFail, .dialOk 1] }
+
+example : let w := exec { demoDeafCancelIdle with evs := demoDeafCancelIdle.evs.take 2 }
+    w.phase = .dialGate ∧ w.connectErr = true ∧ w.dials = 1 ∧ w.conns.length = 0 := by decide
+example : (exec demoDeafCancelIdle).phase = .exited ∧ (exec demoDeafCancelIdle).connectErr = true ∧
+    (exec demoDeafCancelIdle).dials = 1 ∧ (exec demoDeafCancelIdle).conns.map (·.alive) = [false] := by decide
+
+/-- cancelled inside DialContext, then Disconnect, then the dial succeeds: the loop ends at once (it does
+    NOT go on to await a CONNACK as a merely stopped loop would) -/
+def demoDeafCancelDiscDialOk : Script :=
+  { cfg := { deafDialer := true }, evs := [.start, .cancelCtx, .disconnect, .dialOk 0, .connackOk false []] }
+
+example : let w := exec { demoDeafCancelDiscDialOk with evs := demoDeafCancelDiscDialOk.evs.take 3 }
+    w.stopped = true ∧ w.phase = .dialGate ∧ w.ctxCancelled = true := by decide
+example : (exec demoDeafCancelDiscDialOk).phase = .exited ∧ (exec demoDeafCancelDiscDialOk).dials = 1 ∧
+    (exec demoDeafCancelDiscDialOk).conns.map (·.alive) = [false] ∧
+    (exec demoDeafCancelDiscDialOk).conns.map (·.connected) = [false] := by decide
+
+/-- so the former statements are FALSE for a dialer that ignores its context:
+    `cancel_exits` / `cancel_then_nothing` (the loop is `.exited` at once, no connection ever again) … -/
+theorem old_cancel_then_nothing_false : ¬ (∀ (s : Script) (evs' : List Ev), let w := exec s
+    w.connectReturned = none → w.ctxCancelled = false → w.phase ≠ .idle →
+      (step w .cancelCtx).phase = .exited ∧
+      (evs'.foldl step (step w .cancelCtx)).conns.length = w.conns.length) := by
+  intro h
+  have := h { cfg := { deafDialer := true }, evs := [.start] } [.dialOk 0] (by decide) (by decide) (by decide)
+  revert this
+  decide
+
+/-- … the second clause of the old `XInv` / `connect_returns_once` (`connectErr` implies `.exited`) … -/
+theorem old_connect_returns_once_false : ¬ (∀ s : Script,
+    (exec s).connectErr = true → (exec s).phase = .exited) := by
+  intro h
+  have := h { cfg := { deafDialer := true }, evs := [.start, .cancelCtx] } (by decide)
+  revert this
+  decide
+
+/-- … `cancel_before_connect` (`.start` with a cancelled context leaves the loop `.exited`) … -/
+theorem old_cancel_before_connect_false : ¬ (∀ w : World, w.connectReturned = none → w.ctxCancelled = false →
+    w.phase = .idle → (step (step w .cancelCtx) .start).phase = .exited) := by
+  intro h
+  have := h (init { cfg := { deafDialer := true } }) (by decide) (by decide) (by decide)
+  revert this
+  decide
+
+/-- … and `stopped_dialOk_connects` (a stopped loop whose dial succeeds awaits the CONNACK) -/
+theorem old_stopped_dialOk_connects_false : ¬ (∀ (w : World) (i : Nat), w.stopped = true → w.phase = .dialGate →
+    (step w (.dialOk i)).phase = .connackGate w.conns.length) := by
+  intro h
+  have := h (exec { demoDeafCancelDiscDialOk with evs := demoDeafCancelDiscDialOk.evs.take 3 }) 0
+    (by decide) (by decide)
+  revert this
+  decide
 
 /-! ### Disconnect before Connect (`.idle`, out of scope): one dial, then the loop exits -/
 
